@@ -90,19 +90,23 @@ def operands_kept(formula, inputs):
     args = []
     for name in func.inputs:
         v = inputs[name]
-        if isinstance(v, list):
-            v = v[0][0]
-        arr = np.empty((1, 1), object)
-        arr[0, 0] = v
+        rows = v if isinstance(v, list) else [[v]]
+        arr = np.empty((len(rows), len(rows[0])), object)
+        for i, row in enumerate(rows):
+            for j, x in enumerate(row):
+                arr[i, j] = x
         rg = Ranges().push(name, arr)
-        given[name] = (rg, v)
+        given[name] = (rg, rows)
         args.append(rg)
     func(*args)
     changed = []
-    for name, (rg, v) in given.items():
-        now = rg.value[0, 0]
-        if not (now is v or (type(now) is type(v) and now == v)):
-            changed.append((name, repr(v), repr(now)))
+    for name, (rg, rows) in given.items():
+        now = rg.value
+        for i, row in enumerate(rows):
+            for j, v in enumerate(row):
+                x = now[i, j]
+                if not (x is v or (type(x) is type(v) and x == v)):
+                    changed.append(('%s[%d,%d]' % (name, i, j), repr(v), repr(x)))
     return changed
 
 
